@@ -49,7 +49,7 @@ ALLOWED_WRITERS = {
                        ("C_", "deepLoadRequested"), ("C_", "deepLoadResumable"),
                        ("RegistryT", "requestScheduled"), ("RegistryT", "clear"), ("R_", "load"), ("RV_", "loadEnter")},
     "compoRemains": {("RegistryT", "requestImmediate"), ("RegistryT", "clearRequests")},
-    "orthoRequested": {("O_", "deepEnter"), ("O_", "deepReenter"), ("RegistryT", "requestImmediate"), ("RegistryT", "requestedOrthoFork"),
+    "orthoRequested": {("O_", "deepEnter"), ("O_", "deepReenter"), ("O_", "orthoRequested"), ("RegistryT", "requestImmediate"), ("RegistryT", "requestedOrthoFork"),
                        ("RegistryT", "clearRequests"), ("RegistryT", "restore"), ("OS_", "wideLoadRequested"), ("O_", "deepLoadRequested")},
 }
 
